@@ -503,8 +503,8 @@ def c16(tier):
 
 def c09_views(n):
     v = [ema(n), {"k": "SuperSmoother", "n": n}, {"k": "CyberCycle", "n": n}, {"k": "LaguerreRSI", "n": max(n, 2)},
-         {"k": "EhlersFisherTransform", "n": n, "c": [E, ema(3)]}, {"k": "RoofingFilter", "n": max(n, 2), "m": 3},
-         {"k": "Ema", "n": 3, "c": [{"k": "SuperSmoother", "n": n}]}, {"k": "SuperSmoother", "n": 3, "c": [{"k": "RoofingFilter", "n": max(n, 2), "m": 2}]}]
+         {"k": "EhlersFisherTransform", "n": n, "c": [E, ema(3)]}, {"k": "RoofingFilter", "n": n, "m": 3},
+         {"k": "Ema", "n": 3, "c": [{"k": "SuperSmoother", "n": n}]}, {"k": "SuperSmoother", "n": 3, "c": [{"k": "RoofingFilter", "n": n, "m": 2}]}]
     if n >= 3:
         v += [{"k": "TrendFlex", "n": n}, {"k": "ReFlex", "n": n}]
     return v
@@ -548,6 +548,8 @@ def c09(tier):
     out = record(run, "streams", progs)
     lines = []
     for m, r in zip(meta, out):
+        if r["res"][0] != "ok":
+            continue          # the constructor does not admit this window length (RoofingFilter N=1)
         ln = dict(m); ln["oa"] = r["res"][1]
         if m["kind"] == "pair":
             ln["ob"] = r["res"][3]
